@@ -600,6 +600,33 @@ mut('c11-explicit-interfaces-names', ['C11'], OB,
     [("                    if i in interface.DBusInterface.knownInterfaces:\n                        ifl.append(interface.DBusInterface.knownInterfaces[i])", "                    if i in interface.DBusInterface.knownInterfaces:\n                        ifl.append(i)")], ['C11.D3'],
     note='proxy gets interface NAMES instead of DBusInterface objects')
 
+# ---- C13 ------------------------------------------------------------------
+BU = 'txdbus/bus.py'
+twin('c13-prefix-inuse-instead-of-queue', ['C13'], ['b3e3921', '3be21ee'], ['C13.D2', 'C13.D4'], 'pre-fix twin (both bus name fixes reverted)')
+twin('c13-prefix-release-queued', ['C13'], 'b3e3921', ['C13.D3'], 'pre-fix twin')
+mut('c13-replace-ignores-allow', ['C13'], BU,
+    [("                if replace_existing and owner.busNames[name]:", "                if replace_existing:")], ['C13.D2'])
+mut('c13-flag-bits-swapped', ['C13'], BU,
+    [("        replace_existing = bool(flags & 0x2)\n        do_not_queue = bool(flags & 0x4)", "        replace_existing = bool(flags & 0x4)\n        do_not_queue = bool(flags & 0x2)")], ['C13.D2'])
+mut('c13-client-flag-bit', ['C13'], CL,
+    [("        if doNotQueue:\n            flags |= 0x4", "        if doNotQueue:\n            flags |= 0x8")], ['C13.D1'])
+mut('c13-already-owner-code', ['C13'], BU,
+    [("                return client.NAME_ALREADY_OWNER", "                return client.NAME_ACQUIRED")], ['C13.D2'])
+mut('c13-queue-at-head', ['C13'], BU,
+    [("                    if caller not in queue:\n                        queue.append(caller)", "                    if caller not in queue:\n                        queue.insert(0, caller)")], ['C13.D2'],
+    note='a queued requester silently becomes owner')
+mut('c13-release-keeps-record', ['C13'], BU,
+    [("        caller.busNames.pop(name, None)\n", "")], ['C13.D3'])
+mut('c13-release-no-successor-signal', ['C13'], BU,
+    [("            if queue:\n                self.sendSignal(queue[0], 'NameAcquired', 's', name)\n", "")], ['C13.D3'])
+mut('c13-disconnect-skips-names', ['C13'], BU,
+    [("        for busName in list(proto.busNames.keys()):\n            self.dbus_ReleaseName(busName, proto.uniqueName)\n", "")], ['C13.D3'])
+mut('c13-getowner-last', ['C13'], BU,
+    [("            conn = self.busNames.get(busName, None)\n            if conn:\n                conn = conn[0]\n\n        if conn is None:\n            raise DError(\n                \"org.freedesktop.DBus.Error.NameHasNoOwner\",\n                \"Could not get UID of name '%s': no such name\" %\n                (busName,),\n            )\n\n        return conn.uniqueName",
+      "            conn = self.busNames.get(busName, None)\n            if conn:\n                conn = conn[-1]\n\n        if conn is None:\n            raise DError(\n                \"org.freedesktop.DBus.Error.NameHasNoOwner\",\n                \"Could not get UID of name '%s': no such name\" %\n                (busName,),\n            )\n\n        return conn.uniqueName")], ['C13.D5'])
+mut('c13-reply-constant', ['C13'], CL,
+    [("NAME_IN_QUEUE = 2\nNAME_IN_USE = 3", "NAME_IN_QUEUE = 3\nNAME_IN_USE = 2")], ['C13.D1'])
+
 # benign variants --------------------------------------------------------------
 mut('ok-int16-condexpr', ['C01', 'C02'], M,
     [("return 2, [struct.pack(lendian and '<h' or '>h', var)]",
